@@ -313,3 +313,34 @@ package xy
 //@     invariant calc.stride == old(calc.stride) && calc.layout == old(calc.layout) && calc.centSum == old(calc.centSum) && calc.cg3 == old(calc.cg3) && calc.triangleCent3 == old(calc.triangleCent3) && calc.basePt == old(calc.basePt) && calc.totalLength == old(calc.totalLength)
 //@     invariant calc.areasum2 == old(calc.areasum2) + sg * fanA(cells(pts), off(pts), stride, calc.basePt[0], calc.basePt[1], m)
 //@     invariant calc.cg3[0] == old(calc.cg3[0]) + sg * fanC(cells(pts), off(pts), stride, calc.basePt[0], calc.basePt[1], 0, m) && calc.cg3[1] == old(calc.cg3[1]) + sg * fanC(cells(pts), off(pts), stride, calc.basePt[0], calc.basePt[1], 1, m)
+
+// ---------------------------------------------------------------------------
+// C11: point location wrappers
+
+//@ func LocatePointInRing
+//@   floats real
+//@   requires len(p) >= 2 && strideOf(layout) >= 2 && whole(len(ring), strideOf(layout))
+//@   ensures [boundary-sound] res == 1 ==> ringOn(p[0], p[1], cells(ring), off(ring), strideOf(layout), cnt(len(ring), strideOf(layout)) - 1)
+//@   ensures [boundary-complete] ringOnX(p[0], p[1], cells(ring), off(ring), strideOf(layout), cnt(len(ring), strideOf(layout)) - 1) ==> res == 1
+//@   ensures [parity] res != 1 ==> (res == 0 <==> ringCross(p[0], p[1], cells(ring), off(ring), strideOf(layout), cnt(len(ring), strideOf(layout)) - 1) % 2 == 1) && (res == 0 || res == 2)
+//@   modifies nothing
+
+//@ func IsPointInRing
+//@   floats real
+//@   requires len(p) >= 2 && strideOf(layout) >= 2 && whole(len(ring), strideOf(layout))
+//@   ensures !ringOn(p[0], p[1], cells(ring), off(ring), strideOf(layout), cnt(len(ring), strideOf(layout)) - 1) ==> (res <==> ringCross(p[0], p[1], cells(ring), off(ring), strideOf(layout), cnt(len(ring), strideOf(layout)) - 1) % 2 == 1)
+//@   ensures ringOnX(p[0], p[1], cells(ring), off(ring), strideOf(layout), cnt(len(ring), strideOf(layout)) - 1) ==> res
+//@   modifies nothing
+
+//@ func IsOnLine
+//@   floats real
+//@   lemmas mulCancel, mulCancel2, mulNonneg, mulMono
+//@   requires len(point) >= 2 && strideOf(layout) >= 2 && whole(len(lineSegmentCoordinates), strideOf(layout))
+//@   panics when len(lineSegmentCoordinates) < 2 * strideOf(layout)
+//@   ensures res <==> lineOn(point[0], point[1], cells(lineSegmentCoordinates), off(lineSegmentCoordinates), strideOf(layout), cnt(len(lineSegmentCoordinates), strideOf(layout)) - 1)
+//@   modifies nothing
+//@   at stmt9: use lineOnMono(point[0], point[1], cells(lineSegmentCoordinates), off(lineSegmentCoordinates), stride, m + 1, cnt(len(lineSegmentCoordinates), stride) - 1)
+//@   loop 1:
+//@     ghost m int = 0 step m + 1
+//@     invariant m >= 0 && i == mul(m + 1, stride) && stride == strideOf(layout) && mul(m + 2, stride) == mul(m + 1, stride) + stride && len(lineSegmentCoordinates) == mul(cnt(len(lineSegmentCoordinates), stride), stride) && (m == 0 || mul(m, stride) < len(lineSegmentCoordinates))
+//@     invariant !lineOn(point[0], point[1], cells(lineSegmentCoordinates), off(lineSegmentCoordinates), stride, m)
